@@ -788,7 +788,8 @@ func (r *c11Run[K, V]) checkOne(ops []c11Op, sn *c11Snap[K, V], target int, elap
 			if maxc[2] > mainMax {
 				mainMax = maxc[2]
 			}
-			if sums[0] > int64(ln.caps[0])+maxc[0]-1 || sums[1] > int64(ln.caps[1])+maxc[1]-1 || sums[1]+sums[2] > int64(ln.caps[2])+mainMax-1 {
+			over := func(sum, capacity, maxCost int64) bool { return sum > 0 && sum > capacity+maxCost-1 } // an empty region exceeds nothing
+			if over(sums[0], int64(ln.caps[0]), maxc[0]) || over(sums[1], int64(ln.caps[1]), maxc[1]) || over(sums[1]+sums[2], int64(ln.caps[2]), mainMax) {
 				cause = "region-beyond-a-one-entry-overshoot"
 			}
 		}
